@@ -246,9 +246,12 @@ def rand_float(t, rng):
 def rand_string(rng, n=None):
     if n is None:
         n = rng.choice([0, 1, 1, 2, 2, 3, 3, 4, 5, 6, 7, 8, 9, 13, 16])
-    kind = rng.randrange(3)
+    kind = rng.randrange(4)
     if kind == 0:
         return "".join(rng.choice("abcXYZ019 _-") for _ in range(n))         # text (encoded by the builder)
+    if kind == 3:
+        # text whose encoding is longer than its character count (the field is as wide as the encoded bytes)
+        return "".join(rng.choice(["\u00b0C", "\u03a9", "\u00e9", "a", "7", "\u20ac"]) for _ in range(max(1, n // 2)))
     if kind == 1:
         return bytes(rng.choice([0, 0xFF, 0x80, 0x7F, 0x0A]) for _ in range(n))
     return bytes(rng.randrange(256) for _ in range(n))
